@@ -6,7 +6,7 @@ specification (Spec/Xml.lean: recogniser `wf` of well-formed XML; Spec/Svg.lean:
 Printed numbers are arbitrary attribute-safe tokens (`SafeNums ν`), colours given as options are attribute-safe
 strings; names are arbitrary lists of code points.
 -/
-import SkNet.Lemmas.SvgDoc
+import SkNet.Lemmas.SvgCount
 import SkNet.Spec.Svg
 
 namespace SkNet.C20
@@ -204,6 +204,54 @@ example : SafeDendroArgs exampleDendro := ⟨by decide, standardColors_safe⟩
 example : (match visualizeDendrogram νhash exampleDendro with | .ok d => d.svg.length | .error _ => 0) = 20 := by
   decide +kernel
 
+
+/-! ## ★ `counts` : the drawing shows every node, edge and name once -/
+
+/-- `get_index`: whenever it returns, the order of the leaves is a permutation of `0 … n-1` — every leaf is drawn at
+    a position of its own (for every list of merges, valid dendrogram or not). -/
+theorem getIndex_permutation (merges : List (Nat × Nat)) (reorder : Bool) (index : List Nat)
+    (h : getIndex merges reorder = .ok index) : index.Perm (List.range (merges.length + 1)) :=
+  getIndex_perm merges reorder index h
+
+example : (match getIndex [(0, 1), (3, 2)] true with | .ok l => l | .error _ => []) = [0, 1, 2] := by decide
+
+/-- `visualize_dendrogram`: whenever it returns, the returned string — read back by the recogniser — is a well-formed
+    document with root `svg`, exactly three edge paths per merge, no other shape, and one `text` element per leaf
+    `0 … n-1` in this order, the `i`-th showing the plain characters of `names[i]`. -/
+theorem visualizeDendrogram_counts (ν : Nums) (a : DendroArgs) (d : Drawing) (hν : SafeNums ν)
+    (ha : SafeDendroArgs a) (h : visualizeDendrogram ν a = .ok d) :
+    docMeets (render d.svg) (expectedDendrogram a) = true := by
+  unfold visualizeDendrogram svgDendrogram at h
+  simp only [bind, Except.bind, pure, Except.pure] at h
+  split at h
+  · simp at h
+  rename_i svg hsvg
+  split at hsvg
+  · simp at hsvg
+  rename_i index hindex
+  split at hsvg
+  · simp at hsvg
+  rename_i text htext
+  split at hsvg
+  · simp at hsvg
+  rename_i paths hpaths
+  simp only [Except.ok.injEq] at hsvg h
+  subst hsvg
+  subst h
+  have hlen := getIndex_length a.merges a.reorder index hindex
+  have hi : Inner (text ++ paths) := Inner.append (dendroNames_inner hν a index htext)
+    (dendroTree_inner hν a ha.color ha.colors index hpaths)
+  have hp := dendroTree_shape hpaths
+  cases hn : a.names with
+  | none =>
+    have ht : text = [] := dendroNames_none hn htext
+    subst ht
+    have := docMeets_svgDoc hν true false [] (fun _ hc => by simp at hc) hi (by simpa using hp)
+    simpa [writeFile, expectedDendrogram, hn, hlen] using this
+  | some names =>
+    have hs := Shape.append (dendroNames_shape hn htext) hp
+    have := docMeets_svgDoc hν true false [] (fun _ hc => by simp at hc) hi hs
+    simpa [writeFile, expectedDendrogram, hn, hlen, Summary.add, plainOf_displayed, Function.comp_def] using this
 
 /-! ## ★ `file_same` : the string written is the string returned -/
 
